@@ -7,6 +7,9 @@ import Driver.Reindex
 import Driver.Fortran
 import Driver.Expr
 import Driver.Parser
+import Driver.Heap
+import Driver.Alias
+import Driver.Tools
 /-
 Correspondence driver.  `.lake/build/bin/fsicdrv < requests > replies`  (or `lake env lean --run Main.lean`)
 Each request line is `<kind>\t<json>`; each reply is one line (`!<message>` on a malformed request).
@@ -22,8 +25,11 @@ def allHandlers : List (String × (Json → Except String String)) :=
   Drv.EvalIndex.handlers ++
   Drv.Reindex.handlers ++
   Drv.Fortran.handlers ++
-  Drv.Expr.handlers
-  ++ Drv.Parser.handlers
+  Drv.Expr.handlers ++
+  Drv.Parser.handlers ++
+  Drv.Heap.handlers ++
+  Drv.Alias.handlers ++
+  Drv.Tools.handlers
 
 def dispatch (kind : String) (j : Json) : Except String String :=
   match allHandlers.lookup kind with
